@@ -40,6 +40,7 @@ func runC09(run *Run, replay string) {
 		n = 3000
 	}
 	valueTargetWitness(run)
+	valueTargetFocus(run)
 	for i := 0; i < n; i++ {
 		r := rand.New(rand.NewSource(subSeed(run.Res.Seed, i)))
 		var sc *Scenario
@@ -299,6 +300,7 @@ func runC08(run *Run, replay string) {
 	crossFileFocusCases(run)
 	operandSymmetryOracle(run, rand.New(rand.NewSource(subSeed(run.Res.Seed, 616161))), n*2)
 	funcCandidateCases(run, rand.New(rand.NewSource(subSeed(run.Res.Seed, 717171))), 1+n/12)
+	valueCandsCases(run)
 	for i := 0; i < n; i++ {
 		r := rand.New(rand.NewSource(subSeed(run.Res.Seed, i)))
 		sc, cfg := tfScenario(r)
